@@ -1274,7 +1274,7 @@ func (r *Runner) checkScenario(i int, s *Step, t *Transcript) {
 func (r *Runner) checkScenarioOn(i int, s *Step, t *Transcript, name string) {
 	prop := "SCN"
 	switch {
-	case strings.HasPrefix(s.Name, "scn:attachments"):
+	case strings.HasPrefix(s.Name, "scn:attachment"):
 		prop = "C49"
 	case strings.HasPrefix(s.Name, "scn:copy-"):
 		prop = "C05"
